@@ -15,6 +15,7 @@ From Coq Require Import ZArith List Bool.
 Import ListNotations.
 From Urwid Require Import PyBase geo_padfill_gen Geometry GeometryFacts GeometryProofs GeometryMoveProofs GeometryMoveFull.
 From Urwid Require GeometryX GeometryXProofs.
+From Urwid Require layout_gen Layout LayoutArith LayoutColumns GeometryLayoutTie.
 Open Scope Z_scope.
 
 (* ------------------------------------------------------------------------------------------ *)
@@ -177,9 +178,61 @@ Proof. exact column_widths_fp. Qed.
 Print Assumptions column_widths_focus_independent.
 
 (* ------------------------------------------------------------------------------------------ *)
+(* the arithmetic of this model is the arithmetic C19 proves its partition theorems about        *)
+(* (C19's files Model/Layout.v, Proofs/LayoutArith.v, Proofs/LayoutColumns.v, imported read-only) *)
+(* ------------------------------------------------------------------------------------------ *)
+(* both properties translate calculate_left_right_padding / calculate_top_bottom_filler from the source with
+   py2v (own constructor names): the two translations are the same function *)
+Theorem padding_translation_is_c19s :
+  forall maxcol at_ aa wt wa minw l r,
+    calculate_left_right_padding maxcol at_ aa wt wa minw l r
+    = layout_gen.calculate_left_right_padding maxcol (GeometryLayoutTie.cv_at at_) aa (GeometryLayoutTie.cv_wt wt) wa minw l r.
+Proof. exact GeometryLayoutTie.clrp_same. Qed.
+Print Assumptions padding_translation_is_c19s.
+
+Theorem filler_translation_is_c19s :
+  forall maxrow vt va ht ha minh t b,
+    calculate_top_bottom_filler maxrow vt va ht ha minh t b
+    = layout_gen.calculate_top_bottom_filler maxrow (GeometryLayoutTie.cv_vt vt) va (GeometryLayoutTie.cv_wt ht) ha minh t b.
+Proof. exact GeometryLayoutTie.ctbf_same. Qed.
+Print Assumptions filler_translation_is_c19s.
+
+(* the hand-written mirror of Columns.column_widths in Model/Geometry.v and the one in C19's Model/Layout.v are the
+   same function (whenever C19's does not raise ZeroDivisionError, i.e. always with weights >= 1) *)
+Theorem column_widths_is_c19s :
+  forall opts fp dc mw maxcol F,
+    Layout.column_widths (map GeometryLayoutTie.cv_col opts) dc mw fp maxcol = Ok F ->
+    column_widths opts fp dc mw maxcol = F.
+Proof. exact GeometryLayoutTie.column_widths_same. Qed.
+Print Assumptions column_widths_is_c19s.
+
+(* hence C19's theorems cw_total / cw_nonneg / cw_fits speak about the widths this model hands to the columns:
+   no width is negative, the focus column is in the list, the visible columns and their dividers fit *)
+Theorem column_widths_partition :
+  forall opts fp dc mw maxcol,
+    Forall GeometryLayoutTie.copt_ok opts -> 0 <= dc -> 0 <= mw -> 0 <= maxcol -> 0 <= fp < zlen opts ->
+    let F := column_widths opts fp dc mw maxcol in
+    Layout.column_widths (map GeometryLayoutTie.cv_col opts) dc mw fp maxcol = Ok F /\
+    Forall (fun w => 0 <= w) F /\ fp < zlen F <= zlen opts /\ LayoutColumns.vis_need dc F <= maxcol.
+Proof. exact GeometryLayoutTie.column_widths_c19. Qed.
+Print Assumptions column_widths_partition.
+
+(* C19's clrp_partition for this model's translation: outside 'clip' the child of a Padding gets
+   min(requested, available) columns *)
+Theorem padding_child_width :
+  forall maxcol at_ aamt wt wamt minw l r, wt <> GClip ->
+    let lr := calculate_left_right_padding maxcol at_ aamt wt wamt minw l r in
+    0 <= fst lr /\ 0 <= snd lr /\
+    maxcol - fst lr - snd lr = Z.min (LayoutArith.clrp_width maxcol (GeometryLayoutTie.cv_wt wt) wamt minw l r) maxcol.
+Proof. exact GeometryLayoutTie.clrp_partition_c19. Qed.
+Print Assumptions padding_child_width.
+
+(* ------------------------------------------------------------------------------------------ *)
 (* about the translated code (regenerated from padding.py / filler.py on every run): unless the  *)
 (* width type is 'clip', the margins a Padding / Filler / Overlay computes are never negative,   *)
-(* i.e. these decorations never trim their child; the margin part of [fits] always holds          *)
+(* i.e. these decorations never trim their child; the margin part of [fits] always holds.        *)
+(* Since extension round 2 these are C19's theorems clrp_partition / ctbf_partition carried over  *)
+(* (Proofs/GeometryLayoutTie.v), no longer proved a second time here.                            *)
 (* ------------------------------------------------------------------------------------------ *)
 Theorem padding_margins_nonneg :
   forall maxcol at_ aamt wt wamt minw l r, wt <> GClip ->
